@@ -10,6 +10,12 @@ import (
 
 // Registry maps property ids to checks.
 var Registry = map[string]func(*core.Run){
+	"C01": CheckC01,
+	"C03": CheckC03,
+	"C04": CheckC04,
+	"C07": CheckC07,
+	"C10": CheckC10,
+	"C11": CheckC11,
 	"C09": CheckC09,
 }
 
